@@ -30,7 +30,7 @@ pub const USER_PANIC: &str = "verif-user-panic";
 pub struct Env {
     pub hooks: Cell<Option<*const dyn Hooks>>,
     pub fault: Cell<Option<Fault>>,
-    pub counters: [Cell<usize>; 3],
+    pub counters: [Cell<usize>; 4],
     pub fault_fired: Cell<bool>,
     /// logical clock for engines without a scheduler
     pub seq_step: Cell<u64>,
@@ -41,7 +41,7 @@ thread_local! {
     static ENV: Env = Env {
         hooks: Cell::new(None),
         fault: Cell::new(None),
-        counters: [Cell::new(0), Cell::new(0), Cell::new(0)],
+        counters: [Cell::new(0), Cell::new(0), Cell::new(0), Cell::new(0)],
         fault_fired: Cell::new(false),
         seq_step: Cell::new(0),
         records: RefCell::new(Vec::new()),
